@@ -230,6 +230,8 @@ def generalized_fma(mult_pairs, add_wires, signed=False, reducer=adders.wallace_
     :return WireVector: The result WireVector
 
     """
+    mult_pairs = mult_pairs or []  # None means that there is nothing to multiply / to add
+    add_wires = add_wires or []
     # first need to figure out the max length
     if mult_pairs:  # Need to deal with the case when it is empty
         mult_max = max(len(m[0]) + len(m[1]) - 1 for m in mult_pairs)
